@@ -40,7 +40,7 @@ gen("C16", "C16 — the strategy loop walks the whole dataset and records a fait
 
 IMP20 = """From Coq Require Import ZArith NArith List Bool String.
 From Alator Require Import Model.Num Model.Quirks Model.Exchange Model.Uist Model.Jura Model.Server Model.Json
-  Proofs.JsonProofs.
+  Proofs.JsonProofs Proofs.JsonJuraProofs.
 Import ListNotations.
 Local Open Scope string_scope."""
 
@@ -69,5 +69,8 @@ gen("C20", "C20 — the JSON server is a faithful transport for the in-process e
     ("c20_rt_jura_tick", "rt_jtick", "… Jura TickResponse including the ids of triggered child orders …", True),
     ("c20_rt_jura_insert_request", "rt_jinsert", "… Jura InsertOrderRequest …", True),
     ("c20_rt_jura_delete_request", "rt_jdelete", "… Jura DeleteOrderRequest.", True),
+    ("c20_jura_transport_faithful", "j_transport_faithful", "Jura service, every request sequence over the endpoints http/jura.rs mounts (tick, fetch_quotes, init, info, insert_order, delete_order — it has no `now` and no new_backtest handler; those two operations are excluded by hypothesis), for EVERY exchange: the decoded response stream equals the in-process result stream (wire types: prices and sizes are strings on this service).", True),
+    ("c20_jura_handler_faithful", "j_handler_faithful", "Jura, one request: after JSON decoding the client holds exactly what the in-process call returned.", True),
+    ("c20_jura_status_400_iff_none", "j_status_400_iff_none", "Jura: HTTP 400 exactly where the in-process call reports an unknown backtest or dataset.", True),
     ("c20_refuted_q_jura_http_drops_triggered", "rt_jtick_defect", "Refuted for the code as it was: the Jura HTTP TickResponse had no field for the triggered child ids that the in-process tick returns — they are lost in transport.", True),
 ])
